@@ -21,6 +21,7 @@ type Term struct {
 	Fields []string
 	Num    bool // numeric-typed (participates in polynomial normalisation)
 	Int    bool // integer-typed
+	Flt    bool // floating-point operation (its evaluation order matters in fpShapeMode)
 	Bool   bool
 	Str    bool
 }
@@ -273,7 +274,23 @@ func isZeroCanon(v string) bool {
 	return v == "0" || v == "false" || v == `""` || v == "nil"
 }
 
+// fpShapeMode: floating-point operations are not normalised as polynomials over the reals; they keep the shape of the
+// expression (commutative operands sorted), so that two terms are equal only if they round in the same way.
+var fpShapeMode bool
+
 func (e *evalCtx) poly(t *Term) Poly {
+	if fpShapeMode && t.Flt {
+		switch t.Op {
+		case "add", "mul":
+			parts := []string{e.poly(t.Args[0]).String(), e.poly(t.Args[1]).String()}
+			sort.Strings(parts)
+			return polyAtom("fp" + t.Op + "(" + parts[0] + "," + parts[1] + ")")
+		case "sub", "div":
+			return polyAtom("fp" + t.Op + "(" + e.poly(t.Args[0]).String() + "," + e.poly(t.Args[1]).String() + ")")
+		case "neg":
+			return polyAtom("fpneg(" + e.poly(t.Args[0]).String() + ")")
+		}
+	}
 	switch t.Op {
 	case "const":
 		r, ok := new(big.Rat).SetString(t.Val)
